@@ -363,6 +363,9 @@ func classKinds(s []Seg) (out []Class) {
 		for _, k := range valKinds {
 			try(k, f)
 		}
+		for _, k := range bigKinds {
+			try(k, f)
+		}
 	}
 	return
 }
